@@ -1,4 +1,5 @@
 import DG.Prune
+import Proofs.Prune
 /-!
 # C17 — pruning types from a full graph gives the code-only graph
 
@@ -161,6 +162,100 @@ theorem redirect_followed_from_entry (redirects : List (Spec × Spec)) (p : PSta
   cases h : p.slots.lookup s with
   | none => exact addSeen_mem p.seen u
   | some sl => exact mono _ _ (addSeen_mem p.seen u)
+
+/-! ## the pruned graph is exactly the code-reachable part, type sides removed
+
+`PReach roots slots redirects` (Proofs/Prune.lean) is the statement's reachability for a
+code-only graph: the roots, the target of a redirect of a reachable specifier, the resolved code
+targets and the source-map target of a reachable entry.  The worklist of `prune_types` ends within
+`pruneFuel` having seen exactly that set (`pruneLoop_final`, by the invariant `PInv`). -/
+
+theorem lookup_filter_key {α} (l : List (Spec × α)) (f : Spec → Bool) (k : Spec) :
+    (l.filter fun (k', _) => f k').lookup k = if f k then l.lookup k else none := by
+  induction l with
+  | nil => simp
+  | cons a l ih =>
+    obtain ⟨k', v⟩ := a
+    by_cases hk : (k == k') = true
+    · have hk' : k = k' := by simpa using hk
+      subst hk'
+      by_cases hf : f k = true
+      · simp [List.filter_cons, hf, List.lookup]
+      · have hf' : f k = false := by simpa using hf
+        simp only [List.filter_cons, hf', Bool.false_eq_true, if_false]
+        rw [ih]; simp [hf']
+    · have hk2 : (k == k') = false := by simpa using hk
+      by_cases hf : f k' = true
+      · simp only [List.filter_cons, hf, if_true, List.lookup, hk2, ih]
+      · have hf' : f k' = false := by simpa using hf
+        simp only [List.filter_cons, hf', Bool.false_eq_true, if_false, List.lookup, hk2, ih]
+
+section exact
+variable (roots : List Spec) (slots : List (Spec × BSlot)) (redirects : List (Spec × Spec))
+
+/-- **a reachable entry is kept, pruned**: its type sides and types dependency are gone, everything
+else is as it was -/
+theorem pruned_entry_of_reachable (k : Spec) (h : PReach roots slots redirects k) :
+    (pruneTypes roots slots redirects (pruneFuel roots slots redirects)).slots.lookup k =
+      (slots.lookup k).map pruneSlot := by
+  obtain ⟨hseen, hvis⟩ := pruneLoop_final roots slots redirects
+  have hk := (hseen k).mpr h
+  simp only [pruneTypes]
+  rw [lookup_filter_key _ (fun k' => List.contains _ k')]
+  simp only [List.contains_eq_mem, hk, decide_true, if_true]
+  rw [hvis k]
+  cases slots.lookup k <;> simp [hk]
+
+/-- **an entry that is not reachable through code is removed** -/
+theorem pruned_entry_unreachable (k : Spec) (h : ¬ PReach roots slots redirects k) :
+    (pruneTypes roots slots redirects (pruneFuel roots slots redirects)).slots.lookup k = none := by
+  obtain ⟨hseen, _⟩ := pruneLoop_final roots slots redirects
+  have hk : ¬ _ := fun hm => h ((hseen k).mp hm)
+  simp only [pruneTypes]
+  rw [lookup_filter_key _ (fun k' => List.contains _ k')]
+  simp [hk]
+
+/-- **the redirects of reachable specifiers are kept as they were …** -/
+theorem pruned_redirect_of_reachable (k : Spec) (h : PReach roots slots redirects k) :
+    (pruneTypes roots slots redirects (pruneFuel roots slots redirects)).redirects.lookup k =
+      redirects.lookup k := by
+  obtain ⟨hseen, _⟩ := pruneLoop_final roots slots redirects
+  have hk := (hseen k).mpr h
+  simp only [pruneTypes]
+  rw [lookup_filter_key _ (fun k' => List.contains _ k')]
+  simp [hk]
+
+/-- … **and all others are removed** -/
+theorem pruned_redirect_unreachable (k : Spec) (h : ¬ PReach roots slots redirects k) :
+    (pruneTypes roots slots redirects (pruneFuel roots slots redirects)).redirects.lookup k = none := by
+  obtain ⟨hseen, _⟩ := pruneLoop_final roots slots redirects
+  have hk : ¬ _ := fun hm => h ((hseen k).mp hm)
+  simp only [pruneTypes]
+  rw [lookup_filter_key _ (fun k' => List.contains _ k')]
+  simp [hk]
+
+/-- **the pruned graph is closed**: whatever a kept entry's code side (or source map) resolves to,
+and wherever a kept redirect leads, is reachable — so it is kept with its entry and its redirect;
+pruning never leaves a code edge of a kept module dangling that the full graph had an answer for -/
+theorem pruned_closed (k : Spec) (h : PReach roots slots redirects k) :
+    (∀ sl t, slots.lookup k = some sl → t ∈ slotTargets sl → PReach roots slots redirects t) ∧
+    (∀ t, redirects.lookup k = some t → PReach roots slots redirects t) :=
+  ⟨fun _ _ hs ht => .edge h hs ht, fun _ hr => .redirect h hr⟩
+
+/-- a type-only target is not a reason to keep anything: reachability never looks at a type side
+or a types dependency (`slotTargets` reads code sides and the source map only) -/
+theorem type_sides_irrelevant (k : Spec) (mt : Tables.MediaType) (deps deps' : List BDep)
+    (td td' sm : Option Res) (hcode : deps.map (·.code) = deps'.map (·.code)) :
+    slotTargets (.module (.js mt deps td sm)) = slotTargets (.module (.js mt deps' td' sm)) := by
+  simp only [slotTargets, depCodeTargets]
+  congr 1
+  have : ∀ l : List BDep, l.filterMap (fun d => d.code.okSpec?) = (l.map (·.code)).filterMap Res.okSpec? := by
+    intro l; induction l with
+    | nil => rfl
+    | cons d ds ih => simp [List.filterMap_cons, ih]
+  rw [this deps, this deps', hcode]
+
+end exact
 
 /-- the F36 layout: the lockfile lists `1 → 9`, the loader reported the module of root `0` under
 `1`; the module imports `2` (code) and `3` (type only).  `2` is kept, the type side is gone. -/
